@@ -141,7 +141,16 @@ mod vk_iter {
                 while j < 2 { if j < l { assert!(c.values.next() == Some(k + j), "[C01 C02 C03 iter-contents] items are delivered in source order"); } j += 1; }
                 assert!(c.values.next().is_none(), "[C03 iter-exact-len] the chunk yields exactly the announced number of items");
             }
-            None => assert!(items == 0, "[C01 iter-none-lost] no item is taken from the wrapped iterator and then dropped"),
+            None => {
+                assert!(items == 0, "[C01 iter-none-lost] no item is taken from the wrapped iterator and then dropped");
+                if admitted && ended {
+                    let s = st();
+                    let mut set = false;
+                    let mut i = 0;
+                    while i < LOGN { if i < s.n && s.log[i].loc == 3 && s.log[i].kind == 6 && s.log[i].arg == 1 { set = true; } i += 1; }
+                    assert!(set, "[C05 C11 iter-end-flag] a one-shot chunk pull that finds the source exhausted records the end (`completed`), so has_more is No afterwards");
+                }
+            }
         }
         let _ = len;
     }
@@ -172,6 +181,24 @@ mod vk_iter {
             }
             None => assert!(items == 0, "[C01 C16 iter-none-lost] no item is taken from the wrapped iterator and then dropped"),
         }
+    }
+
+    // concrete extreme chunk sizes with the REAL atomics (a symbolic size would make an eager allocation explode in CBMC)
+    // @harness name=iter_chunk_extreme props=C16,C03 kind=bounded bound="chunk size in {usize::MAX, usize::MAX - 1, usize::MAX / 2} on a source of length <= 2; sequential"
+    #[kani::proof]
+    #[kani::unwind(6)]
+    fn iter_chunk_extreme() {
+        let len: usize = kani::any();
+        kani::assume(len <= 2);
+        let it = ConIterOfIter::new(0..len);
+        let sel: u8 = kani::any();
+        kani::assume(sel < 3);
+        let n = if sel == 0 { usize::MAX } else if sel == 1 { usize::MAX - 1 } else { usize::MAX / 2 };
+        let r = it.next_chunk(n).map(|mut c| (c.begin_idx, c.values.len(), c.values.next()));
+        kani::cover!(len == 2 && sel == 0, "usize::MAX on two elements");
+        if len == 0 { assert!(r.is_none(), "[C16 C03 iter-extreme-chunk] an extreme chunk size on an empty source reports the end"); }
+        else { assert!(r == Some((0, len, Some(0))), "[C16 C03 iter-extreme-chunk] an extreme chunk size delivers exactly the rest of the source and does not panic"); }
+        assert!(it.next().is_none(), "[C16 C05 iter-extreme-chunk] afterwards the iterator is exhausted");
     }
 
     // @harness name=iter_chunk_zero props=C16,C11 kind=bounded bound="fruitless polls <= 2"
